@@ -185,6 +185,20 @@ def run_tiny(ctx, spec):
       if got is not None:
         for k, g_ in zip(ch, got):
           cmp_.pt('BatchMultiplyG', g_, mc.mul(mc.g, k), (k,))
+    # singleton and tiny batches (a batch of even / short scalars has no bit
+    # in the lowest comb column: nothing in a large mixed batch shows that)
+    steps = (n.bit_length() + 7) // 8
+    for k in range(-n - 2, 2 * n + 3):
+      got = call(ctx, 'BatchMultiplyG', rc.BatchMultiplyG, [k])
+      if got is not None:
+        cmp_.pt('BatchMultiplyG', got[0], mc.mul(mc.g, k), ([k],))
+    for k in range(0, 2 * n + 3, 2):
+      for batch in ([k, 2 * k], [k, k + 2, k + 4], [4 * k, 2 * k, 8 * k],
+                    [k << steps, k]):
+        got = call(ctx, 'BatchMultiplyG', rc.BatchMultiplyG, list(batch))
+        if got is not None:
+          cmp_.val('BatchMultiplyG', [R2M(v) for v in got],
+                   [mc.mul(mc.g, x) for x in batch], (batch,))
     # PointSequence / PointTable
     for base in bases[:2]:
       for cnt in (1, 2, 3, n - 1, n, n + 3):
@@ -333,6 +347,20 @@ def run_named(ctx, spec):
     if i < 40:
       cmp_.pt('MultiplyAffine', call(ctx, 'MultiplyAffine', rc.MultiplyAffine,
                                      rc.g, k), want[i], ('G', k))
+  # singletons and small batches of even / short / column-aligned scalars
+  mask = sum(1 << j for j in range(0, bits, steps))
+  small = [[2], [4], [6], [2, 4, 8], [n + 2], [1 << (steps - 1)], [1 << steps],
+           [2, 1], [rng.below(n) & ~mask], [rng.below(n) & ~mask,
+                                            rng.below(n) & ~mask],
+           [(rng.below(n) & ~mask) | 2], [2 * rng.below(2 ** 30)],
+           [mask], [mask << 1], [0], [0, 0], [n], [n, 2 * n]]
+  small += [[k] for k in scal[:60]]
+  for batch in small:
+    got = call(ctx, 'BatchMultiplyG', rc.BatchMultiplyG, list(batch))
+    if got is not None:
+      cmp_.val('BatchMultiplyG', [R2M(v) for v in got],
+               [mc.mulg(x) for x in batch], (batch, 'small-batch'))
+  ctx.count('small_batches', len(small))
   # again with a warm cache and in a different grouping (cache is state)
   for i in range(0, len(scal), 11):
     ch = scal[i:i + 11][::-1]
@@ -472,6 +500,7 @@ def finalize(agg, tier):
   for k in ('op:Add', 'op:AddJacobian', 'op:BatchMultiplyG', 'op:BatchAddList',
             'op:BatchAddSubtractX', 'op:Multiply', 'op:PointTable',
             'lists_with_zero_denominator', 'curve_constant_facts',
+            'small_batches',
             'openssl_crosschecks'):
     if not c.get(k):
       inc.append('reach counter %s is zero' % k)
